@@ -101,6 +101,9 @@ for _pid in ("C01", "C02"):
     PROPS[_pid]["theorem_modules"] = PROPS[_pid]["theorem_modules"] + ["DecProofs.Properties.C02GenRound"]
 PROPS["C12"]["theorem_modules"] = PROPS["C12"]["theorem_modules"] + ["DecProofs.Properties.C12GenNaN"]
 PROPS["C17"]["theorem_modules"] = PROPS["C17"]["theorem_modules"] + ["DecProofs.Properties.C17GenNext"]
+PROPS["C11"]["theorem_modules"] = PROPS["C11"]["theorem_modules"] + ["DecProofs.Properties.C11GenLogb", "DecProofs.Properties.C09GenQuantize"]
+PROPS["C06"]["theorem_modules"] = PROPS["C06"]["theorem_modules"] + ["DecProofs.Properties.C06GenToInt", "DecProofs.Properties.C06GenToIntRN"]
+PROPS["C09"]["theorem_modules"] = PROPS["C09"]["theorem_modules"] + ["DecProofs.Properties.C09GenQuantize"]
 PROPS["C20"]["theorem_modules"] = PROPS["C20"]["theorem_modules"] + ["DecProofs.Properties.C20GenGlue"]
 PROPS["C16"]["theorem_modules"] = PROPS["C16"]["theorem_modules"] + ["DecProofs.Properties.C16GenMinMax"]
 for _pid in ("C13", "C12", "C09"):
